@@ -141,7 +141,7 @@ Init == /\ trajs \in (IF Data = {} THEN AllData ELSE {Catalogue[i] : i \in Data}
 (* Log is the LAST conjunct of every action (all other primed variables are determined by then) *)
 Log(op) == /\ (OpBudget = 0 \/ Cardinality({j \in DOMAIN hist : hist[j].op = op.op}) < OpBudget)
            /\ hist' = Append(hist, op)
-           /\ trail' = Append(trail, Obs(obj', disk', res'))
+           /\ trail' = IF Emit THEN Append(trail, Obs(obj', disk', res')) ELSE trail   \* only kept when emitting
 CanStep == Len(hist) < Depth
 NewConfigs == IF AnyNew THEN Configs ELSE {c \in Configs : c.sliding /\ c.maxn = 0}
 Bools == IF Variants THEN BOOLEAN ELSE {FALSE}
@@ -288,6 +288,9 @@ RejectedChangesNothing == [][res'.k = "raise" => (obj' = obj /\ disk' = disk)]_v
 (* ---- emission -------------------------------------------------------------------------------------------------------- *)
 HistView == <<trajs, obj, disk, res, Len(hist)>>
 OpView == <<trajs, obj, disk, res, Len(hist), LastOp>>
+(* one history per distinct TRANSITION (observation before, operation, state after): OpView identifies a step by its
+   result, so an absorbed effect (force-saving over an identical model) would only be emitted from the first state *)
+TransView == <<OpView, IF hist = <<>> THEN <<>> ELSE trail[Len(trail) - 1]>>
 Rec == [trajs |-> trajs, hist |-> hist, trail |-> trail]
 EmitInv == (Emit /\ hist # <<>>) => PrintT(<<"CASE", ToJson(Rec)>>)
 EmitFull == (Emit /\ Len(hist) = Depth) => PrintT(<<"CASE", ToJson(Rec)>>)
